@@ -535,11 +535,11 @@ def run(c):
         cfg["save_after"] = c.rng.randint(0, 12)
         cases.append((cfg, paths[c.rng.next() % 4], c.rng.randint(1, 25)))
     # pairwise covering array of the explicit factors (copy / compare version: in-memory paths, no twin kind)
-    f17 = OrderedDict((f, list(v)) for f, v in FACTORS.items() if f != "kind")
+    f17 = OrderedDict((f, list(v)) for f, v in FACTORS.items() if f not in ("kind", "gap"))
     f17["path"] = ["copy", "pickle", "buffer", "file"]
 
     def to_case17(fc):
-        cfg, path, k, kind = factor_cfg(dict(fc, kind="one"))
+        cfg, path, k, kind = factor_cfg(dict(fc, kind="one", gap="na"))
         return cfg, path, k, "copy"
     pw, pw_arr, pw_tot, pw_exc = pairwise_cases(c, f17, "c17", to_case17)
     cases = [(x[0], x[1], x[2]) for x in pw] + dimension_first(cases, kind_of=lambda cs: "copy")
